@@ -43,7 +43,27 @@
 #include <vector>
 
 using clk = std::chrono::steady_clock;
-using spinlock = pika::concurrency::detail::spinlock;
+// User lock shared by several waiting TASKS: a spin lock that gives the worker back while it waits.  pika's own
+// concurrency::detail::spinlock busy-waits without yielding; as a user lock shared by as many tasks as there are workers it
+// deadlocks with the stop-token forms of wait, which yield while holding the re-acquired user lock (the stop_callback
+// destructor waits for its in-flight callback with yield_k): the holder sits in the queue of a worker that spins for the
+// lock for ever (seen 2 times in ~150 runs under load, diagnosed with gdb: three waiters in spin_k on the user lock, the
+// holder pending).  A lock that never yields starves a cooperative scheduler whatever it protects, so that combination is
+// not a condition-variable failure; the scenarios keep a spinning BasicLockable, but a cooperative one.
+struct spinlock
+{
+    pika::concurrency::detail::spinlock m;
+    void lock()
+    {
+        while (!m.try_lock())
+        {
+            if (pika::threads::detail::get_self_ptr()) pika::this_thread::yield();
+            else std::this_thread::yield();
+        }
+    }
+    bool try_lock() { return m.try_lock(); }
+    void unlock() { m.unlock(); }
+};
 
 struct Rng
 {
